@@ -145,8 +145,13 @@ class Problem:
         self.rball = 0.3
         self.funs = [obj] + {'vol': [('vol', 0.4)], 'ball': [('ball', self.rball)],
                              'two': [('vol', 0.45), ('ball', self.rball)],
-                             'inactive_first': [('vol', 0.97), ('ball', self.rball)]}[cons]
+                             'inactive_first': [('vol', 0.97), ('ball', self.rball)],
+                             # three reciprocal constraints (used with the min-max options a, a0 only): satisfied with
+                             # margin at the upper bounds, violated at the lower bounds
+                             'rec3': [('rec', 0), ('rec', 1), ('rec', 2)]}[cons]
+        self.crec3 = [0.1 + 4.9 * g(20 + i) for i in range(3)]
         self.m = len(self.funs) - 1
+        self.shift = 0.0     # added to every constraint value (shift >= 1: no x satisfies g <= 0 without the variable z)
 
     def u(self, x):
         return (np.asarray(x, float) - self.lo) / self.w
@@ -170,11 +175,15 @@ class Problem:
         kind, par = f
         if kind == 'vol':
             den = par * np.sum(self.wvol)
-            return self.wvol @ u / den - 1.0, self.wvol / w / den, np.zeros((n, n))
+            return self.wvol @ u / den - 1.0 + self.shift, self.wvol / w / den, np.zeros((n, n))
         if kind == 'ball':
             d = u - self.cball
             den = n * par ** 2
-            return d @ d / den - 1.0, 2 * d / w / den, np.diag(2.0 / w ** 2 / den)
+            return d @ d / den - 1.0 + self.shift, 2 * d / w / den, np.diag(2.0 / w ** 2 / den)
+        if kind == 'rec':
+            c = self.crec3[par]
+            den = 1.3 * np.sum(c / (self.lo + 0.8 * w))
+            return np.sum(c / x) / den - 1.0 + self.shift, -c / x ** 2 / den, np.diag(2 * c / x ** 3 / den)
         raise KeyError(f)
 
     def values(self, x):
